@@ -13,4 +13,4 @@ def run(repo, res, tier):
         "(e.g. iteration order of sets).")
     encrules.rule_a1(repo, res)
     effects.rule_estate(repo, res, families=("PVLEncoder",))
-    effects.rule_globals(repo, res, modules=("encoder",))
+    effects.rule_globals(repo, res, modules=("encoder", "__init__", "new"), floor=20)
